@@ -17,7 +17,7 @@ func init() { Registry["C10"] = C10 }
 func C10(p *ir.Program, r *report.R) {
 	c := C{p, r}
 	r.Floor = 30
-	r.Explain = "Decided (necessary conditions only): (B1) no stale cached hash after mutation — every shortNode/fullNode built in Trie.insert/delete takes its flags from t.newFlag() (dirty, no cached hash), every in-place child assignment is on a node obtained from copy() or built in the same function and that node's flags are reset, and nodeFlag.hash has no writer outside the hasher/decoder; (B2) every SecureTrie accessor passes the hashed key to the inner trie; (B3) VerifyProof decodes a proof node only after its bytes hashed to the hash the parent (initially the root) commits to, and the next expected hash is the hashNode child of the node just decoded. ADDED after seeded-change testing: (B4) nothing in libs/trie extends a slice owned by an existing shortNode/fullNode in place (append(n.Key, ...)) — handles share nodes; (B5) Prove's collection loop runs while len(key) > 0 && tn != nil, matching what VerifyProof consumes. Rounds 4-5: a pooled hasher is not used after it was returned to the pool. NOT decided: canonical form of insert/delete (root independent of operation order), last-write lookup, iteration order — these are invariants of a recursive data structure over operation histories, out of reach of a sound static rule here."
+	r.Explain = "Decided (necessary conditions only): (B1) no stale cached hash after mutation — every shortNode/fullNode built in Trie.insert/delete takes its flags from t.newFlag() (dirty, no cached hash), every in-place child assignment is on a node obtained from copy() or built in the same function and that node's flags are reset, and nodeFlag.hash has no writer outside the hasher/decoder; (B2) every SecureTrie accessor passes the hashed key to the inner trie; (B3) VerifyProof decodes a proof node only after its bytes hashed to the hash the parent (initially the root) commits to, and the next expected hash is the hashNode child of the node just decoded. ADDED after seeded-change testing: (B4) nothing in libs/trie extends a slice owned by an existing shortNode/fullNode in place (append(n.Key, ...)) — handles share nodes; (B5) Prove's collection loop runs while len(key) > 0 && tn != nil, matching what VerifyProof consumes. Rounds 4-5: a pooled hasher is not used after it was returned to the pool. Rounds 5-6: Prove decides proof elements by running the hasher, never by a cached hash; hasher.store embeds exactly below 32 bytes and decodeRef refuses larger embedded nodes; appends onto node-owned slices are followed through helper parameters; only the 16 branch slots are hashed, the value slot is carried over. NOT decided: canonical form of insert/delete (root independent of operation order), last-write lookup, iteration order — these are invariants of a recursive data structure over operation histories, out of reach of a sound static rule here."
 	r.Trusted = []string{"crypto.Keccak256", "decodeNode/hasher encodings agree (libs/ser, C11)"}
 
 	// ---- B1 -------------------------------------------------------------------
